@@ -60,6 +60,9 @@ type Case struct {
 	Globals   []GM       `json:"globals"`
 	DefaultAt int        `json:"default_options_at"` // position of DefaultOptions() among the global options, -1 = absent
 	Routes    []RouteCfg `json:"routes"`
+	// HandlersFirst: the custom no-route, no-method and options handlers are given before the middleware options (and before
+	// DefaultOptions, if any) instead of after them: an option list is a set of settings, their order does not pick the handler
+	HandlersFirst bool `json:"handlers_first,omitempty"`
 }
 
 type traceKey struct{}
@@ -177,12 +180,15 @@ func build(c *Case) (*fox.Router, error) {
 	if c.DefaultAt >= len(c.Globals) {
 		opts = append(opts, fox.DefaultOptions())
 	}
-	opts = append(opts,
+	handlers := []fox.GlobalOption{
 		fox.WithNoRouteHandler(endpoint("noroute", 404)),
 		fox.WithNoMethodHandler(endpoint("nomethod", 405)),
 		fox.WithOptionsHandler(endpoint("options", 200)),
-	)
-	return fox.New(opts...)
+	}
+	if c.HandlersFirst {
+		return fox.New(append(handlers, opts...)...)
+	}
+	return fox.New(append(opts, handlers...)...)
 }
 
 func expectTrace(got []string, want []string) error {
@@ -393,6 +399,7 @@ func TestConfigurations(t *testing.T) {
 		if gen.Chance(t, 1, 12, "defaultOptions") {
 			c.DefaultAt = gen.IntR(t, 0, ng, "defaultAt")
 		}
+		c.HandlersFirst = gen.Chance(t, 1, 3, "handlersfirst")
 		nr := gen.IntR(t, 1, 3, "nroutes")
 		routeMw := 0
 		for i := 0; i < nr; i++ {
